@@ -37,7 +37,7 @@ LEVEL_NOTE = 'Histories are sampled; only state that changes the result of one o
 TECHNIQUE = 'Hypothesis RuleBasedStateMachine over call histories in a long-lived interpreter / server, fresh-process differential as history invariant'
 
 GLS = '\\gls@defglossaryentry{lab}{name={Name},text={glossar text},plural={plurals},description={desc}}\n'
-FILES = {'zz.glsdefs': GLS, 'zz.sed': docgen.SED, 'zzdefs.tex': '\\newcommand{\\zzfromfile}{Fromfile}\n\\usepackage[german]{babel}\n'}
+FILES = {'zz.glsdefs': GLS, 'zz.sed': docgen.SED, 'zz2.sed': 's/\\\\cref{zzother}/other ref/g\n', 'zzrepl.txt': 'Waaaq & REPLACED\nso dass & sodass\n', 'zzdefs.tex': '\\newcommand{\\zzfromfile}{Fromfile}\n\\usepackage[german]{babel}\n'}
 STAR = dict(pack='*')
 MLK = dict(pack='*', lang='en-GB')
 
@@ -85,6 +85,8 @@ PAIRS = [
      E('\\href{u}{v} \\zzz a\\xspace b', dcls='scrartcl', pack='xspace', unkn=True)),
     (E('\\newtheorem{thm}{Theorem} \\begin{thm}[Riesz] a \\end{thm}', **STAR), E('\\begin{thm}[Riesz] b \\end{thm}', **STAR)),
     (E('\\newtheorem{lem}{Lemma} x', dcls='article', pack=None), E('\\documentclass{article} \\begin{lem}[Zorn] b \\end{lem}', pack=None)),
+    (E('\\usepackage[poorman]{cleveref}\\YYCleverefInput{zz.sed} \\cref{zzeq} \\Cref{zzeq} a', **STAR),
+     E('\\usepackage[poorman]{cleveref}\\YYCleverefInput{zz2.sed} \\cref{zzeq} \\cref{zzother} b', **STAR)),
     (E('\\begin{itemize}\\item a \\begin{itemize} \\item b', dcls='article'), E('\\begin{itemize}\\item c\\end{itemize}', dcls='article')),
 ]
 POOL = [e for p in PAIRS for e in p]
